@@ -33,6 +33,20 @@ fn main() {
                 seed = args[i + 1].parse::<i64>().expect("seed") as u64;
                 i += 1;
             }
+            "--replay" => {
+                // re-execute the scenario recorded in a witness file (same seed, same index)
+                let doc: serde_json::Value = serde_json::from_str(
+                    &std::fs::read_to_string(&args[i + 1]).expect("replay file"),
+                )
+                .expect("replay file is json");
+                seed = doc["seed"].as_u64().unwrap_or(seed);
+                only = doc["scenario"].as_u64().map(|x| x as usize);
+                if doc["tier"].as_str() == Some("thorough") {
+                    tier = runner::Tier::Thorough;
+                }
+                println!("replaying {} scenario {:?} seed {}: recorded '{}'", prop, only, seed, doc["what"].as_str().unwrap_or(""));
+                i += 1;
+            }
             "--only" => {
                 only = Some(args[i + 1].parse().expect("idx"));
                 i += 1;
